@@ -1,5 +1,5 @@
 SPECIFICATION Spec
-CONSTANTS Names = {a, b}  Dists = {d1, d2}  MaxTrials = 3  MaxCalc = 2  IPs = {FALSE}  Variant = "nosplit"
+CONSTANTS Names = {a, b}  Dists = {d1, d2}  MaxTrials = 2  MaxCalc = 2  IPs = {FALSE}  Variant = "nosplit"
 SYMMETRY Sym
 PROPERTY GroupsArePartition
 CHECK_DEADLOCK FALSE
